@@ -138,6 +138,51 @@ def execute(ops, rnd):
     return inp, exp, dict(rot=COUNT['rot'], two=COUNT['two'])
 
 
+def loci_as_sets(ops):
+    """'and therefore every locus': the same history on an object of each locus class, judged against a Python set (membership, length,
+    emptiness, KeyError, ascending iteration, draw from the current members)"""
+    from epydemic import Locus
+    from epydemic.compartmentedmodel import CompartmentedNodeLocus, CompartmentedEdgeLocus
+    from epydemic.opinion_model import MultiCompartmentedEdgeLocus
+    mk = [('Locus', lambda: Locus('x')), ('CompartmentedNodeLocus', lambda: CompartmentedNodeLocus('x', 'c')),
+          ('CompartmentedEdgeLocus', lambda: CompartmentedEdgeLocus('x', 'l', 'r')),
+          ('MultiCompartmentedEdgeLocus', lambda: MultiCompartmentedEdgeLocus('x', 'l', ['r', 'q']))]
+    tup = lambda x: tuple(x) if isinstance(x, list) else x
+    for (nm, f) in mk:
+        try:
+            l = f(); ref = set()
+            for k, op in enumerate(ops):
+                if op[0] == 'init': continue
+                e = tup(op[1]) if len(op) > 1 else None
+                what = None
+                if op[0] == 'add': l.add(e); ref.add(e)
+                elif op[0] == 'discard': l.discard(e); ref.discard(e)
+                elif op[0] == 'remove':
+                    try:
+                        l.remove(e); ok = True
+                    except KeyError:
+                        ok = False
+                    if ok != (e in ref): what = f"remove({e}) {'succeeded' if ok else 'raised KeyError'}, the set {'does not hold' if ok else 'holds'} it"
+                    ref.discard(e)
+                elif op[0] == 'in':
+                    if (e in l) != (e in ref): what = f"{e} in locus is {e in l}, in the set {e in ref}"
+                elif op[0] == 'draw':
+                    try:
+                        r = l.draw()
+                        if r not in ref: what = f"draw() returned {r}, not a member of {sorted(ref, key=enc)}"
+                    except ValueError:
+                        if ref: what = "draw() raised ValueError on a non-empty set"
+                if what is None and (len(l) != len(ref) or l.empty() != (not ref) or [enc(x) for x in l] != sorted(enc(x) for x in ref)):
+                    what = f"holds {[enc(x) for x in l]} (len {len(l)}, empty {l.empty()}), a set would hold {sorted(enc(x) for x in ref)}"
+                if what:
+                    return f"{nm} after {k + 1} operations ({' '.join(map(str, op))}): {what}"
+        except RecursionError:
+            raise
+        except Exception as ex:
+            return f"{nm}: {type(ex).__name__}: {ex}"
+    return None
+
+
 def exhaustive(k, nw, maxlen, U):
     kinds = [(o, e) for o in ('add', 'discard', 'remove') for e in range(U)]
     i = 0
@@ -179,6 +224,9 @@ if __name__ == '__main__':
     with open(os.path.join(out, 'ops.txt'), 'w') as fi, open(os.path.join(out, 'expected.txt'), 'w') as fe:
         for ops in cases:
             i, e, st = execute(ops, rnd)
+            if keep_hist and len(VIOL) < 3:
+                w = loci_as_sets(ops)
+                if w: VIOL.append(dict(msg=w, history=ops))
             index.append(dict(start=nlines, n=len(i), rot=st['rot'], two=st['two'], ops=ops if keep_hist else None,
                               key=None if keep_hist else hash(json.dumps(ops))))
             nlines += len(i)
